@@ -210,6 +210,9 @@ def run_models(rep: Report, tier: str, workers: Any = "auto") -> List[dict]:
         if not m.records:
             raise MachineryError("FixLoop emitted no behaviours")
         records += m.records
+    # TLC's emission order depends on worker scheduling: canonical order (cache key, sample choice, ids)
+    import json
+    records.sort(key=lambda r: json.dumps(r, sort_keys=True))
     # eager cross-check of the lazy-table argument on a scope small enough to enumerate every table
     e = run_tlc("FixLoop", cfg_text(constants={"K": 3, "NR": 2, "Limits": {3}, "Lazy": False, "Sticky": True, "EmitRecs": False,
                                                "EmitMod": 1, "Phases": {"main"}, "Compats": {True}}, invariants=SAFETY),
